@@ -71,7 +71,11 @@ Definition check_frame (d c : list Z) (typ : Z) (payload real : list Z) : Z :=
   (match frame_dec (tbl_d c d) real with
    | Some (t, p, rest) => if (t =? typ) && list_eqb p payload && list_eqb rest [] then 0 else 4
    | None => 4 end) +
-  (if count_accepted_prefixes (tbl_d c d) (length real) real =? 0 then 0 else 8).
+  (if count_accepted_prefixes (tbl_d c d) (length real) real =? 0 then 0 else 8) +
+  (* model of today's reader: a header-only tail with the same record's payload still in the pooled buffer is accepted *)
+  (match frame_dec_current (tbl_d c d) c (firstn 5 real) with
+   | Some (t, p, _) => if (t =? typ) && list_eqb p payload then 0 else 16
+   | None => if len c =? 0 then 0 else 16 end).
 
 (* expand 8-byte big-endian words back into bytes (the driver ships long byte strings as 64-bit words) *)
 Definition unwords (n : Z) (ws : list Z) : list Z := firstn (Z.to_nat n) (flat_map (be 8) ws).
